@@ -7,6 +7,10 @@ before the counter reset (before_search_start) is a call on or with the algorith
 C17.charged: a result the executor makes up itself (timeout, crashed worker) still carries the number of
 statements that were started, or the statement budget never sees them.
 Wall-clock / memory conditions are value-level and not decided.
+Further clauses (added later): C17.budgets interprets get_stopping_conditions: one condition per configured
+budget, also when budgets carry equal numbers, and every observer is attached. C17.charged (must-pass): a
+substitute result (timeout=True) carries the number of started statements before it reaches the budget
+observers.
 """
 
 from __future__ import annotations
